@@ -1,6 +1,7 @@
 package ir
 
 import (
+	"strings"
 	"go/token"
 	"go/types"
 	"reflect"
@@ -234,8 +235,64 @@ func not(t tri) tri {
 // untouched functions keep the shape go/ssa gave them.
 var onlyTouched = map[*ssa.Function]bool{}
 
+// hoistPhiStores: the continuation block of an expanded helper may begin with the spill of a
+// struct result into a local (`*dev = phi(zero, result)`), which stands between the phis and
+// the error test and keeps the block from being threaded. When every predecessor only jumps
+// to the block, the store is moved to the end of each predecessor with the value that
+// predecessor contributes - the same stores on the same paths, one step earlier.
+func hoistPhiStores(fn *ssa.Function) bool {
+	changed := false
+	for _, C := range fn.Blocks {
+		if !strings.HasPrefix(C.Comment, "inline.") || len(C.Preds) < 2 {
+			continue
+		}
+		ok := true
+		for _, p := range C.Preds {
+			if len(p.Succs) != 1 || p == C {
+				ok = false
+			}
+		}
+		if !ok {
+			continue
+		}
+		for idx := 0; idx < len(C.Instrs); idx++ {
+			in := C.Instrs[idx]
+			if _, isPhi := in.(*ssa.Phi); isPhi {
+				continue
+			}
+			st, isStore := in.(*ssa.Store)
+			if !isStore {
+				break
+			}
+			phi, isPhi := st.Val.(*ssa.Phi)
+			alloc, isAlloc := st.Addr.(*ssa.Alloc)
+			if !isPhi || phi.Block() != C || !isAlloc || alloc.Parent() != fn || alloc.Block() == C {
+				break
+			}
+			for i, p := range C.Preds {
+				ns := &ssa.Store{Addr: st.Addr, Val: phi.Edges[i]}
+				setHidden(ns, "block", p)
+				setHidden(ns, "pos", st.Pos())
+				last := len(p.Instrs) - 1
+				p.Instrs = append(p.Instrs[:last:last], ns, p.Instrs[last])
+			}
+			C.Instrs = append(C.Instrs[:idx:idx], C.Instrs[idx+1:]...)
+			idx--
+			changed = true
+		}
+	}
+	if changed {
+		rebuildReferrers(fn)
+	}
+	return changed
+}
+
 func ThreadJumps(fn *ssa.Function) int {
 	n := 0
+	if hoistPhiStores(fn) {
+		onlyTouched[fn] = true
+		n++
+	}
 	for round := 0; round < 50; round++ {
 		InvalidateDom(fn)
 		if !threadOne(fn) {
